@@ -200,6 +200,23 @@ def impl_fn(case, ref, est, rel):
     o = case["opts"]
     stamps = [unhex(x) for x in case["stamps"]]
     tr, te = traj_from(ref, stamps), traj_from(est, stamps)
+    indep_refusal = None
+    if case.get("pre_plane"):   # objects that were projected before: a requested projection has to be refused
+        from evo.core.trajectory import TrajectoryException
+        tr.project(Plane(case["pre_plane"]))
+        if case.get("pre_both"):
+            te.project(Plane(case["pre_plane"]))
+        try:
+            _independent_processing(case, copy.deepcopy(tr), copy.deepcopy(te))
+        except TrajectoryException as e:
+            indep_refusal = e
+        try:
+            res = main_ape.ape(tr, te, rel, project_to_plane=Plane(o["plane"]) if o["plane"] else None,
+                               ref_name="ref", est_name="est", **_opts(case))
+        except TrajectoryException:
+            return {"both_refused": "TrajectoryException"} if indep_refusal is not None else {"refused": "TrajectoryException"}
+        if indep_refusal is not None:
+            return {"not_refused": res.info["title"]}
     ir, ie = _independent_processing(case, copy.deepcopy(tr), copy.deepcopy(te))
     unit = getattr(metrics.Unit, o["unit"]) if o["unit"] else None
     try:
@@ -365,6 +382,9 @@ def judge(case, val, out):
     # ape_fn / ape_cli
     if "both_refused" in out:
         return None
+    if "not_refused" in out:
+        return _sv("a projection was requested for trajectories that had been projected before; the projection step must "
+                   "refuse, but evo_ape returned values (title %r) for pairs that are not the requested processing" % out["not_refused"])
     if "refused" in out:
         if case.get("expect_refusal"):
             return None
@@ -467,6 +487,12 @@ def gen(ctx):
                       "stamps": [hexf(x) for x in stamps],
                       "opts": {"align": align, "correct_scale": cs, "align_origin": ao, "plane": plane, "unit": unit,
                                "n_to_align": int(rng.choice([-1, -1, 3, n // 2 + 2]))}})
+    for i in range(ctx.n(4, 12)):   # already projected inputs and a further requested projection
+        base = dict(cases[-1 - i])
+        planes = ["xy", "xz", "yz"]
+        base["opts"] = dict(base["opts"], plane=planes[i % 3], unit=None)
+        base["pre_plane"], base["pre_both"] = planes[(i + 1 + i // 3) % 3 if i % 4 else i % 3], bool(i % 2)
+        cases.append(base)
     # the CLI: files -> run() -> zip
     cli_rels = list(CLI_REL.keys())
     for i in range(ctx.n(24, 120)):
